@@ -10,7 +10,8 @@
 (*                         PosEncodingOps                                          *)
 (*  layer 2 - dictionaries: DictOps, (Spell, Dict)                                  *)
 (*  layer 3 - stateful components: LintGroup, ConfigOps, IgnoreOps, StatsLog,       *)
-(*                         DictFile, FileDictName, SourceFile, SegmentsOps            *)
+(*                         DictFile, FileDictName, SourceFile, SegmentsOps,           *)
+(*                         StatsSession, PosEncoding                                 *)
 (*  layer 4 - long-lived objects: JsLinter (harper-wasm), LspServer (harper-ls),     *)
 (*                         EffectsOps (process boundary)                             *)
 EXTENDS Naturals, Sequences
@@ -68,5 +69,7 @@ C15_Distance(a, b) == Di!WagnerFischer(a, b) = Di!Lev(a, b)
 \* C17  ordinal suffixes
 C17_Verdict(d, sfx, lower) == Or!RuleVerdict(d, sfx, lower, TRUE) = Or!PropertyVerdict(d, sfx)
 \* C18  title-casing only changes case and is idempotent    -> TitleCase!LengthKept, OnlyCase, FirstCap, Idempotent
-\* C19  the statistics log reads back what was written      -> StatsLog!ReadsBack, NoRawBreakInRecord, SummaryCountsOnce
+\* C19  the statistics log reads back what was written      -> StatsLog!ReadsBack, NoRawBreakInRecord, SummaryCountsOnce,
+\*                                                            BufferedReadsBack; sessions with a moving statsPath -> StatsSession!EachAppliedOnce,
+\*                                                            NeverTwice, InOrder (Trace_StatsSession)
 =============================================================================
